@@ -671,3 +671,41 @@ def r02e(ctx):
         ctx.ok(cid, mod.loc(fn), "unsorted minima OR unsorted maxima raise")
     else:
         ctx.bad(cid, mod.loc(fn), f"the 'partitions are not sorted' refusal tests only {sorted(kinds) or 'nothing'}: a partition whose range is nested in / interleaved with its neighbour's passes, set_index(sorted=True) publishes divisions built from the minima and rows above the next minimum lie outside their partition's divisions (loc and merges lose them)")
+
+
+@rule(
+    "R02f",
+    ["C02", "C17", "C01"],
+    """AN ACCUMULATOR THAT IS EXTENDED IN A LOOP IS EXTENDED FROM ITSELF: several API methods build their result step by step
+    (`result = self`; in a loop `result = new_collection(Op(result, ...))`). A step that builds on the ORIGINAL object instead
+    (`Op(self, ...)`) silently discards everything the earlier iterations added - df.assign(a=..., b=<unaligned series>, ...) lost the
+    columns assigned before the series. In a function where a local is initialised from `self` and rebound inside a loop, every
+    rebinding inside the loop must mention that local.""",
+)
+def r02f(ctx):
+    model = ctx.model
+    n = 0
+    for mod, cls, fn in _api_functions(model):
+        inits = {}
+        for st in fn.body:
+            if isinstance(st, ast.Assign) and len(st.targets) == 1 and isinstance(st.targets[0], ast.Name) and ast.unparse(st.value) in ("self", "self.expr", "self._expr"):
+                inits[st.targets[0].id] = st
+        if not inits:
+            continue
+        for loop in (x for x in ast.walk(fn) if isinstance(x, (ast.For, ast.While))):
+            for acc in inits:
+                rebinds = [st for st in ast.walk(loop) if isinstance(st, ast.Assign) and any(isinstance(t, ast.Name) and t.id == acc for t in st.targets)]
+                if len(rebinds) < 1:
+                    continue
+                fq = qual(cls, fn) if cls is not None else f"{mod.name.split('.', 1)[-1]}.{fn.name}"
+                for k, st in enumerate(rebinds):
+                    n += 1
+                    cid = f"{fq}:accumulator:{acc}#{k}"
+                    names = {x.id for x in ast.walk(st.value) if isinstance(x, ast.Name)}
+                    if acc in names:
+                        ctx.ok(cid, mod.loc(st), f"`{acc}` is extended from itself")
+                    elif "self" in names:
+                        ctx.bad(cid, mod.loc(st), f"`{unparse(st)[:100]}` rebuilds the accumulator `{acc}` from `self` inside the loop: whatever earlier iterations added to `{acc}` is discarded (columns assigned before this step disappear from the result)")
+                    else:
+                        ctx.ok(cid, mod.loc(st), f"`{acc}` is replaced by a value that does not restart from self")
+    ctx.floor("accumulator rebindings in API loops", n, 3)
